@@ -164,16 +164,32 @@ def lemma_count(prop):
     return n, sorted(set(files))
 
 
-def run_model(lines, timeout=600):
-    """Run the extracted model on the given command lines; returns the list of output lines."""
-    if not lines:
-        return []
+def _run_model_chunk(args):
+    lines, timeout = args
     rc, out = sh('ulimit -s unlimited 2>/dev/null; exec %s' % MODELRUN, timeout=timeout, inp='\n'.join(lines) + '\n')
     res = out.split('\n')
     if res and res[-1] == '':
         res.pop()
     if len(res) != len(lines):
         res += ['EXC model-runner-died rc=%s' % rc] * (len(lines) - len(res))
+    return res[:len(lines)]
+
+
+def run_model(lines, timeout=600, jobs=None):
+    """Run the extracted model on the given command lines (split over several processes); returns the output lines."""
+    if not lines:
+        return []
+    jobs = jobs or int(os.environ.get('VERIF_JOBS', '16'))
+    if len(lines) < 8 or jobs <= 1:
+        return _run_model_chunk((lines, timeout))
+    from concurrent.futures import ThreadPoolExecutor
+    k = min(jobs, len(lines))
+    chunks = [lines[i::k] for i in range(k)]
+    with ThreadPoolExecutor(k) as ex:
+        outs = list(ex.map(_run_model_chunk, [(c, timeout) for c in chunks]))
+    res = [None] * len(lines)
+    for i, o in enumerate(outs):
+        res[i::k] = o
     return res
 
 
